@@ -10,7 +10,7 @@ EXPLANATION = ("Harness c03.prog: 2-3 watchers with symbolic configuration (para
                "dispatcher models.dispatch.Model written from the statement; call sequence, events (old/new/type) and the "
                "values visible at callback entry are compared after every operation.")
 STUBS = []
-OUTSIDE = ["class-level watchers and assignments", "async callbacks", "more than 3 watchers, programs longer than k",
+OUTSIDE = ["async callbacks", "more than 3 watchers, programs longer than k",
            "cascades other than the acyclic b := a + 1", "callbacks that assign while a trigger is being delivered (statement silent)",
            "changes-only filtering for equal values of families the statement does not list (unspecified: no assertion)"]
 ASSUMPTIONS = ["values of a, b: unbounded symbolic ints; values of the untyped parameter u from an equality-subtle pool "
@@ -20,14 +20,14 @@ ASSUMPTIONS = ["values of a, b: unbounded symbolic ints; values of the untyped p
 OPS = (D.SET_A, D.SET_B, D.SET_U, D.UNWATCH, D.TRIGGER_A, D.SET_SLOT)
 
 
-def prog(k: int, nw: int, act: bool,
+def prog(k: int, nw: int, level: int, act: bool,
          n1: int, oc1: bool, qd1: bool, pr1: int, kw1: bool,
          n2: int, oc2: bool, qd2: bool, pr2: int, kw2: bool,
          n3: int, oc3: bool, qd3: bool, pr3: int, kw3: bool,
          o1: int, x1: int, o2: int, x2: int, o3: int, x3: int, o4: int, x4: int) -> None:
     wc = [(n1, oc1, qd1, pr1, kw1), (n2, oc2, qd2, pr2, kw2), (n3, oc3, qd3, pr3, kw3)][:nw]
     ops = [(o1, x1), (o2, x2), (o3, x3), (o4, x4)][:k]
-    D.run('C03', ops, wc, OPS, act, slot_w=True)
+    D.run('C03', ops, wc, OPS, act, slot_w=True, level=level)
 
 
 def eq(i: int, j: int, oc: bool) -> None:
@@ -63,7 +63,7 @@ def shards(tier):
                 if o1 == D.UNWATCH and q:
                     continue
                 for o2 in OPS:
-                    c = dict(k=k, nw=nw, n1=n1, n2=n2, o1=o1, o2=o2)
+                    c = dict(k=k, nw=nw, n1=n1, n2=n2, o1=o1, o2=o2, level=0)
                     if q:
                         c.update(kw1=False)
                     for j in range(k + 1, 5):
@@ -72,6 +72,17 @@ def shards(tier):
                         c.update(n3=0, oc3=False, qd3=False, pr3=0, kw3=False)
                     out.append(dict(name='n%d%d_o%d%d' % (n1, n2, o1, o2), module='harness.c03', fn='prog', consts=c,
                                     budget_s=60 if q else 600))
+    # class-level registration and assignment (fresh class per path)
+    for (n1, n2) in (((0, 2),) if q else ((0, 2), (2, 1), (3, 0))):
+        for o1 in OPS:
+            if o1 == D.UNWATCH and q:
+                continue
+            for o2 in OPS:
+                c = dict(k=2 if q else 3, nw=2, n1=n1, n2=n2, o1=o1, o2=o2, level=1, kw1=False, n3=0, oc3=False, qd3=False, pr3=0, kw3=False)
+                for j in range(c['k'] + 1, 5):
+                    c.update({'o%d' % j: 0, 'x%d' % j: 0})
+                out.append(dict(name='cls_n%d%d_o%d%d' % (n1, n2, o1, o2), module='harness.c03', fn='prog', consts=c,
+                                budget_s=60 if q else 600))
     return out
 
 
@@ -79,4 +90,4 @@ def bounds(tier):
     q = tier == 'quick'
     return dict(program_length=2 if q else 3, watchers=2 if q else 3, opcodes=[D.OPNAMES[o] for o in OPS],
                 precedence='0..1' if q else '0..2', names=[list(n) for n in D.NAMES[:4 if q else 5]], u_pool=len(D.UPOOL),
-                equality_pool=len(D.EQPOOL), equality_pairs=len(D.EQPOOL) ** 2)
+                levels=['instance', 'class (fresh class per path)'], equality_pool=len(D.EQPOOL), equality_pairs=len(D.EQPOOL) ** 2)
